@@ -1,5 +1,6 @@
 SPECIFICATION LSpec
 CONSTANTS
+  PDiv = 1
   Keys = {1,2,3,4}
   Prios = {1,2,3}
   NIter = 0
